@@ -163,6 +163,10 @@ def get_operation_count(layer, input_shape):
 
     kernel_h, kernel_w, _, _ = weight.shape
 
+    # each output channel of a grouped convolution sees channels_i / groups
+    # input channels
+    channels_i = channels_i // getattr(layer, "groups", 1)
+
     operation_count = (
         height_o * width_o * channels_o * kernel_h * kernel_w * channels_i)
 
